@@ -80,6 +80,11 @@ type Op struct {
 	// WithCloseOnContextDone), which closes the instance with the exit code of that cause (= Code); the instance is
 	// then called twice more (the release of resources of such a close is deferred to the next look at the closed flag)
 	Via string `json:"via,omitempty"`
+	// Shared (inst): the instance is created with the world's ONE shared close-notifier registration (a context made
+	// once by WithCloseNotifier and reused for many instantiations, as its documentation allows: "if configured for
+	// multiple modules, it will be called for each") instead of a registration of its own.  Such a notifier cannot tell
+	// the instances apart: the multiset of exit codes it received is compared.
+	Shared bool `json:"shared,omitempty"`
 }
 
 func (o Op) Token() string {
@@ -144,6 +149,10 @@ type world struct {
 	allocs   map[int]int
 	frees    map[int]int
 	pool     []int // handles of successfully instantiated modules, in response order
+	// one close-notifier registration shared by all `Shared` instantiations
+	sharedCtx   context.Context
+	sharedNotes []uint32
+	sharedOf    map[int]bool
 }
 
 func newWorld(engine string) *world {
@@ -315,6 +324,20 @@ func (w *world) do(o Op) (res rawRes) {
 			w.notes[h] = append(w.notes[h], code)
 			w.mu.Unlock()
 		}))
+		if o.Shared {
+			w.mu.Lock()
+			if w.sharedCtx == nil {
+				w.sharedOf = map[int]bool{}
+				w.sharedCtx = experimental.WithCloseNotifier(ctx, experimental.CloseNotifyFunc(func(_ context.Context, code uint32) {
+					w.mu.Lock()
+					w.sharedNotes = append(w.sharedNotes, code)
+					w.mu.Unlock()
+				}))
+			}
+			w.sharedOf[h] = true
+			ictx = w.sharedCtx
+			w.mu.Unlock()
+		}
 		ictx = experimental.WithMemoryAllocator(ictx, experimental.MemoryAllocatorFunc(func(cap, max uint64) experimental.LinearMemory {
 			w.mu.Lock()
 			w.allocs[h]++
@@ -537,7 +560,7 @@ func genSeq(r *rand.Rand, n int) []Op {
 			if pre == "host" && name == 0 {
 				name = 1 + r.Intn(3) // API rule: a host module name must not be empty
 			}
-			ops = append(ops, Op{Kind: "inst", H: nextH, Name: name, Pre: pre})
+			ops = append(ops, Op{Kind: "inst", H: nextH, Name: name, Pre: pre, Shared: r.Intn(3) == 0})
 			nextH++
 		case x < 38:
 			ops = append(ops, Op{Kind: "instfail", Name: r.Intn(4), Fail: failKinds[r.Intn(len(failKinds))]})
@@ -707,6 +730,7 @@ func runSeq(engine string, ops []Op, cfg Cfg, o *hx.Oracle) {
 	w.rt.CloseWithExitCode(context.Background(), 7)
 	o.Askf("c10 op %d rtclose,7", sid)
 	dump := parseDump(o.Askf("c10 dump %d", sid))
+	var sharedWant []string
 	for _, h := range insts {
 		notes, allocs, frees := w.effects(h)
 		m := w.mods[h]
@@ -714,6 +738,21 @@ func runSeq(engine string, ops []Op, cfg Cfg, o *hx.Oracle) {
 		if !ok {
 			// the model never created the instance (failed before registration)
 			d = dumpEnt{notes: "-", fs: 0}
+		}
+		if w.sharedOf[h] {
+			// notified through the shared registration: compared as a multiset below
+			if d.notes != "-" {
+				sharedWant = append(sharedWant, strings.Split(d.notes, "+")...)
+			}
+			if m != nil && !m.IsClosed() {
+				rep.Violate(hx.Violation{Kind: "impl-violation", Signature: "C10:module-open-after-runtime-close",
+					What: fmt.Sprintf("handle %d is not closed after Runtime.Close", h), Input: seqCase{engine, concrete}})
+			}
+			if frees != allocs {
+				rep.Violate(hx.Violation{Kind: "impl-violation", Signature: "C10:seq-memory-not-freed-exactly-once",
+					What: fmt.Sprintf("handle %d: %d linear memories allocated, %d Free calls", h, allocs, frees), Input: seqCase{engine, concrete}})
+			}
+			continue
 		}
 		realNotes := "-"
 		if len(notes) > 0 {
@@ -745,6 +784,24 @@ func runSeq(engine string, ops []Op, cfg Cfg, o *hx.Oracle) {
 		if allocs > 0 && frees != d.fs {
 			rep.Violate(hx.Violation{Kind: "correspondence", Signature: "C10:seq-resource-release-differs-from-impl-model",
 				What: fmt.Sprintf("handle %d: Free calls %d, model resource closes %d", h, frees, d.fs), Input: seqCase{engine, concrete}})
+		}
+	}
+	if w.sharedCtx != nil {
+		var got []string
+		for _, c := range w.sharedNotes {
+			got = append(got, fmt.Sprint(c))
+		}
+		sort.Strings(got)
+		sort.Strings(sharedWant)
+		rep.Count("seq-shared-notifier-registration")
+		if strings.Join(got, "+") != strings.Join(sharedWant, "+") {
+			kind, sig := "correspondence", "C10:seq-notifications-differ-from-impl-model"
+			if len(got) != len(sharedWant) {
+				kind, sig = "impl-violation", "C10:seq-close-notification-not-exactly-once"
+			}
+			rep.Violate(hx.Violation{Kind: kind, Signature: sig,
+				What:  fmt.Sprintf("%d instances were created with ONE close-notifier registration and are closed: the notifier was called %d times (exit codes %v, one per closed instance would be %v)", len(sharedWant), len(got), got, sharedWant),
+				Input: seqCase{engine, concrete}, Expected: sharedWant, Actual: got})
 		}
 	}
 	rep.Case("seq/" + engine + "/" + strings.Join(key, " "))
